@@ -45,7 +45,7 @@ type prog struct {
 	A int      `json:"a"` // instance index (close/destroy) or thread (cancel)
 }
 
-func (p prog) coq() string { return fmt.Sprintf("(%d,%d)", int(p.K), p.A) }
+func (p prog) coq() string { return fmt.Sprintf("(P %d %d)", int(p.K), p.A) }
 func (p prog) String() string {
 	return [...]string{"summon", "close", "destroy", "cancel"}[p.K] + fmt.Sprintf("(%d)", p.A)
 }
@@ -85,7 +85,7 @@ func (o obsEv) coq() string {
 	if o.Sampled {
 		m = o.Map + 2
 	}
-	return fmt.Sprintf("(%d,%d,%d,%d,%d)", o.T, o.K, o.A, o.C, m)
+	return fmt.Sprintf("(E %d %d %d %d %d)", o.T, o.K, o.A, o.C, m)
 }
 
 type result struct {
@@ -426,7 +426,7 @@ func coqCase(progs []prog, r result) string {
 	for i, o := range r.tail {
 		tl[i] = o.coq()
 	}
-	return fmt.Sprintf("(%s, %s, %s)", common.List(ps), common.List(tr), common.List(tl))
+	return fmt.Sprintf("(C %s %s %s)", common.List(ps), common.List(tr), common.List(tl))
 }
 
 func humanTrace(r result) []string {
